@@ -37,7 +37,17 @@ Store(nm, al) == /\ Len(reg) < NShipped + MaxUser
                  /\ last' = <<"store", nm, reg' # reg>>
 Find(s) == /\ reg' = reg
            /\ last' = <<"find", s, FindImpl(reg, s)>>
+\* adsorbate_delete_db: refused for a shipped adsorbate (isotherms in the file reference it) and for a
+\* name the file does not hold; succeeds for a stored user adsorbate
+DeleteDb(nm) == LET shippedName == \E i \in 1..NShipped : Shipped[i].name = nm
+                    refused == shippedName \/ ~\E i \in DOMAIN reg : reg[i].name = nm
+                IN /\ reg' = DbDeleteImpl(reg, nm, refused)
+                   /\ last' = <<"delete", nm, refused,
+                                DbStepSpec("delete", nm, IF refused THEN "refused" ELSE "ok",
+                                           [i \in DOMAIN reg |-> reg[i].name],
+                                           LET post == DbDeleteImpl(reg, nm, refused) IN [i \in DOMAIN post |-> post[i].name])>>
 Next == \/ \E nm \in UserNames, al \in AliasArgs : Store(nm, al)
+        \/ \E nm \in UserNames \cup {"b"} : DeleteDb(nm)
         \/ \E s \in AllStrings : Find(s)
 Spec == Init /\ [][Next]_vars
 
@@ -49,8 +59,11 @@ InvFindSound == \A s \in AllStrings :
                    LET r == FindImpl(reg, s) IN IF r = None THEN Owners(reg, s) = {} ELSE s \in Eff(reg[r])
 InvNoDupName == \A i, j \in DOMAIN reg : reg[i].name = reg[j].name => i = j
 InvLast == last[1] = "find" => last[3] = FindImpl(reg, last[2])
+\* every database delete is a step DbStepSpec allows (a refused one changes nothing)
+InvDbStep == last[1] = "delete" => last[4]
 \* every step is a step the property allows
 StepAllowed == [][\/ reg' = reg
+                  \/ \E nm \in UserNames : reg' = DbDeleteImpl(reg, nm, FALSE) /\ SubSeq(reg', 1, NShipped) = Shipped
                   \/ \E nm \in UserNames, al \in AliasArgs : reg' \in StoreSpec(reg, Mk(nm, al))]_vars
 
 \* the shipped prefix of the model satisfies the property (sanity of the model itself)
